@@ -19,6 +19,7 @@ import (
 	"bytes"
 	"compress/gzip"
 	"context"
+	"encoding/json"
 	"errors"
 	"flag"
 	"fmt"
@@ -32,6 +33,7 @@ import (
 	"strings"
 	"sync"
 	"sync/atomic"
+	"syscall"
 	"time"
 
 	"verifharness/vh"
@@ -106,16 +108,29 @@ func errClass(err error) string {
 	return "err:syntax"
 }
 
-// watchdog: a decode that runs for more than 10 s is reported as a hang (C05) and the process exits.
+// watchdog: a decode that runs for more than 10 s of wall-clock time AND has burnt more than 5 s of process CPU time
+// since it started is reported as a hang (C05) and the process exits.  The CPU condition keeps a starved process (a
+// dozen checks sharing the machine: a 10 s stall of a 300-byte decode was observed once, not reproducible) from
+// being reported as a hang of the decoder; a decode that has been stalled for 120 s is reported in any case.
 var busySince atomic.Int64
+var busyCPU atomic.Int64
 var busyWhat atomic.Value
+
+func cpuNow() int64 {
+	var ru syscall.Rusage
+	if syscall.Getrusage(syscall.RUSAGE_SELF, &ru) != nil {
+		return 0
+	}
+	return ru.Utime.Nano() + ru.Stime.Nano()
+}
 
 func startWatchdog(rep *vh.Report) {
 	go func() {
 		for {
 			time.Sleep(500 * time.Millisecond)
 			t := busySince.Load()
-			if t != 0 && time.Now().UnixNano()-t > int64(10*time.Second) {
+			wall := time.Now().UnixNano() - t
+			if t != 0 && wall > int64(10*time.Second) && (cpuNow()-busyCPU.Load() > int64(5*time.Second) || wall > int64(120*time.Second)) {
 				w, _ := busyWhat.Load().(string)
 				rep.Add(vh.Case{Kind: "violation", Key: "C05", Op: w, Detail: "decoder did not terminate within 10 s"})
 				rep.Write(*out)
@@ -129,7 +144,13 @@ func startWatchdog(rep *vh.Report) {
 // goDecode runs the real decoder over the bytes. chunk > 0 limits every Read.
 func goDecode(pkg string, fail bool, base string, b []byte, chunk int) (res result) {
 	op := fmt.Sprintf("ttld.dec %s %s %s %s", pkg, endName(fail), baseTok(base), vh.X(b))
+	return goDecodeRd(pkg, base, b, &vh.EndReader{B: append([]byte(nil), b...), Fail: fail, Chunk: chunk}, op)
+}
+
+// goDecodeRd: the real decoder over any reader (b = the document, for messages only).
+func goDecodeRd(pkg string, base string, b []byte, rd io.Reader, op string) (res result) {
 	busyWhat.Store(op)
+	busyCPU.Store(cpuNow())
 	busySince.Store(time.Now().UnixNano())
 	defer busySince.Store(0)
 	defer func() {
@@ -139,7 +160,6 @@ func goDecode(pkg string, fail bool, base string, b []byte, chunk int) (res resu
 			res.bad = append(res.bad, fmt.Sprintf("C05 panic: %v", p))
 		}
 	}()
-	rd := &vh.EndReader{B: append([]byte(nil), b...), Fail: fail, Chunk: chunk}
 	var seen []rdf.BlankNodeIdentifier
 	label := func(bn rdf.BlankNode) string {
 		if bn.Identifier == nil {
@@ -588,8 +608,13 @@ func (g *gen) c15cuts(pkg, base string, doc []byte, spans []span, cuts []int) {
 			g.violation("C15", op, "reader failed but the decoder ended cleanly")
 		}
 		// statements before the cut are statements of the whole document, in order (+ at most one from the cut token)
+		// … unless the cut is right after a closing quote: it does not cut the string token (oneshot.go, strictCut)
 		n := len(p.stmts)
-		if !(isPrefixOf(p.stmts, full.stmts) || (n > 0 && isPrefixOf(p.stmts[:n-1], full.stmts))) {
+		strict := strictCut(doc, k)
+		if strict {
+			g.rep.Count("c15:cuts-after-quote(no allowance)")
+		}
+		if !(isPrefixOf(p.stmts, full.stmts) || (!strict && n > 0 && isPrefixOf(p.stmts[:n-1], full.stmts))) {
 			// known-finding class `cut-after-dot-in-collection`: the prefix ends in a '.' that belongs to a number or
 			// name inside a collection; the shortened item and the eagerly emitted rdf:rest link after it both differ
 			if f, ok := g.known["cut-after-dot-in-collection"]; ok && doc[k-1] == '.' && n >= 2 && isPrefixOf(p.stmts[:n-2], full.stmts) &&
@@ -612,6 +637,14 @@ func (g *gen) c15cuts(pkg, base string, doc []byte, spans []span, cuts []int) {
 			if p.verdict == "clean" {
 				g.violation("C15", op, "input stops inside a statement but the decoder ended cleanly")
 			}
+		}
+		// the same offset as a one-shot (non-sticky) reader failure: all cuts after a quote, a third of the others
+		if strict || g.r.Chance(33) {
+			sticky := p
+			if !fail {
+				sticky = goDecode(pkg, true, base, doc[:k], 0)
+			}
+			g.c15oneshot(pkg, base, doc, k, full, sticky)
 		}
 	}
 }
@@ -897,7 +930,11 @@ type docGen struct {
 	stats                   map[string]int // counters handed to the report
 	harmful                 int            // literals written whose relative datatype resolves to rdf:langString / rdf:dirLangString
 	inColl, inBnpl, inGraph int
+	quoteCuts               []int // offsets right after the closing quote of every string (oneshot.go)
 }
+
+// genQuoteCuts: quoteCuts of the document genDoc produced last.
+var genQuoteCuts []int
 
 var safeSegs = []string{"a", "b", "c", "d", "x1", "y-2", "z_3", "q.r", "~t", "A", "B9"}
 var hosts = []string{"e", "example.org", "a.b", "h-1.x"}
@@ -1037,6 +1074,7 @@ func (d *docGen) stringTok() {
 	if d.bias && d.r.Chance(40) {
 		k = 4
 	}
+	d.quoteCuts = append(d.quoteCuts, d.sb.Len()) // after the closing quote: before @lang / ^^datatype, or after a plain string
 	switch k {
 	case 0, 1:
 		d.sb.WriteString("@" + d.r.LangTag())
@@ -1197,7 +1235,7 @@ func (d *docGen) directive() {
 	case 0:
 		p := vh.Pick(d.r, []string{"", "p", "q", "ex", "b", "base", "prefix", "graph", "a", "true", "p.q", "é"})
 		if d.r.Chance(35) {
-			p = vh.Pick(d.r, kwLabels)
+			p = pickKwLabel(d.r)
 		}
 		d.sb.WriteString("@prefix")
 		d.ws(true)
@@ -1210,7 +1248,7 @@ func (d *docGen) directive() {
 	case 1:
 		p := vh.Pick(d.r, []string{"", "p", "q", "ex", "b", "P", "G", "t", "f"})
 		if d.r.Chance(35) {
-			p = vh.Pick(d.r, kwLabels)
+			p = pickKwLabel(d.r)
 		}
 		d.sb.WriteString(caseMix(d.r, "PREFIX"))
 		d.ws(true)
@@ -1349,6 +1387,7 @@ func genDoc(r *vh.Rng, trigDoc bool, base string, bias bool) ([]byte, []span, ma
 	if d.harmful > 0 {
 		d.count("gen.reldt_docs-with-langString-or-dirLangString")
 	}
+	genQuoteCuts = d.quoteCuts
 	return d.sb.Bytes(), d.spans, d.stats
 }
 
@@ -1370,6 +1409,7 @@ func (g *gen) generated(n, cutsPerDoc int) {
 			base = vh.Pick(g.r, []string{rdfNSDoc, rdfNSSibling, "http://www.w3.org/1999/02/", "", "", base})
 		}
 		doc, spans, stats := genDoc(g.r.Fork(), trigDoc, base, bias)
+		quoteCuts := genQuoteCuts
 		for k, v := range stats {
 			g.rep.Hist[k] += v
 		}
@@ -1381,6 +1421,7 @@ func (g *gen) generated(n, cutsPerDoc int) {
 			g.c07("gen-ttl", base, doc, false)
 			g.cutsOf(vh.Pick(g.r, []string{"turtle", "trig"}), base, doc, spans, cutsPerDoc)
 		}
+		g.quoteCutsOf(trigDoc, base, doc, spans, quoteCuts)
 		if i%4 == 0 {
 			g.c15chunk(vh.Pick(g.r, []string{"turtle", "trig"}), base, doc, g.r.Chance(20))
 		}
@@ -1631,8 +1672,41 @@ func main() {
 			fmt.Fprintln(os.Stderr, err)
 			os.Exit(2)
 		}
-		for _, l := range strings.Split(strings.TrimSpace(string(b)), "\n") {
+		lines := strings.Split(strings.TrimSpace(string(b)), "\n")
+		var rj struct {
+			Violations    []vh.Case `json:"violations"`
+			Disagreements []vh.Case `json:"disagreements"`
+		}
+		if json.Unmarshal(b, &rj) == nil && len(rj.Violations)+len(rj.Disagreements) > 0 {
+			// a replay file written by ./check: the ops of its cases
+			lines = lines[:0]
+			for _, c := range append(rj.Violations, rj.Disagreements...) {
+				op := c.Op
+				if i := strings.Index(op, " on x"); i >= 0 && strings.HasPrefix(op, "turtle vs trig") {
+					op = "ttld.dec turtle eof - " + op[i+4:]
+				}
+				lines = append(lines, op)
+			}
+		}
+		for _, l := range lines {
 			f := strings.Fields(l)
+			if len(f) == 6 && f[0] == "oneshot" && strings.HasPrefix(f[2], "at=") {
+				// a one-shot reader failure (oneshot.go): oneshot <pkg> at=<k> chunk=<c> <base> <doc>
+				raw, _ := vh.UnX(f[5])
+				base := ""
+				if f[4] != "-" {
+					bb, _ := vh.UnX(f[4])
+					base = string(bb)
+				}
+				var k int
+				fmt.Sscanf(f[2], "at=%d", &k)
+				if k > 0 && k < len(raw) {
+					full := g.dec("replay", f[1], false, base, raw, true)
+					g.c15oneshot(f[1], base, raw, k, full, goDecode(f[1], true, base, raw[:k], 0))
+					g.c15cuts(f[1], base, raw, nil, []int{k})
+				}
+				continue
+			}
 			if len(f) == 5 && f[0] == "ttld.dec" {
 				raw, _ := vh.UnX(f[4])
 				base := ""
@@ -1668,6 +1742,8 @@ func main() {
 		g.reldtCornerDocs()
 		rep.Exhaustive = append(rep.Exhaustive, fmt.Sprintf("%d fixed documents with relative datatype references (fragment-only, sibling, dot-segment, absolute-path and network-path references; base from @base / BASE / the default base option / changing in the document; plain objects, collections, blank-node property lists, graph blocks) that resolve to rdf:langString / rdf:dirLangString or to harmless near misses", len(reldtCorners)))
 		g.kwDocs()
+		g.kwFamDocs(*tier == "thorough")
+		g.strTagCutDocs()
 		g.graphOghamDocs()
 		g.dtDocs()
 		rep.Exhaustive = append(rep.Exhaustive, "datatype IRIs of 6 datatypes (rdf:langString, rdf:dirLangString, rdf:HTML, xsd:string, xsd:integer, a plain IRI) written as absolute and relative IRIREFs under @base / BASE / default bases and as prefixed names with absolute, relative and mid-name namespaces and keyword-like labels, in 4 statement shapes, both packages")
